@@ -120,6 +120,14 @@ func forType(t reflect.Type, seen map[reflect.Type]bool, ignore bool, schemas ma
 	// an explicit JSON "null" is allowed for the pointer.
 	allowNull := false
 	for t.Kind() == reflect.Pointer {
+		// A named pointer type can be its own element type (type P *P).
+		if t.Name() != "" {
+			if seen[t] {
+				return nil, fmt.Errorf("cycle detected for type %v", t)
+			}
+			seen[t] = true
+			defer delete(seen, t)
+		}
 		allowNull = true
 		t = t.Elem()
 	}
